@@ -41,6 +41,49 @@ PROPS = {
         assumptions=A_COMMON + ["A3: tokio AsyncReadExt::read returns between 1 and min(buf.len, available) bytes, 0 only at end of input"],
         trusted=["bytes, tokio AsyncRead contracts (shims/bytes.rs, io.rs)"],
     ),
+    "C06": dict(
+        level_text="Proof (Verus, unbounded) for the SOCKS reply codec: SocksResponse::write_v4 emits 90 iff cmd == 0 and all 8 bytes; write_v5 emits [5, cmd, 0] ++ address; write_to flushes; read_v4 reports cmd == 0 iff the upstream said 90 (lemma_v4_reply_roundtrip); read_v5 returns the upstream's code unchanged. The 'iff upstream established' ordering inside process_request is decided by the Kani stub-unit where present (bounded, listed under bounded_checks).",
+        level_note="Partial: reply writers/readers are proofs; HTTP reply writers and the process_request event order are only covered where evidence lists them. Trusted: RW shim (tokio io), Verus/Z3.",
+        verus_units=["socks"],
+        level="proof",
+        assumptions=A_COMMON + ["A3 tokio io contracts", "A7 await-stripping", "A9 copy_bidi takes the client stream before relaying (not checked)"],
+        trusted=["tokio io (shims/rw.rs)"],
+    ),
+    "C07": dict(
+        level_text="Proof (Verus, unbounded) of the credential gate functions: PasswordAuth::select_method never selects NONE when credentials are required, only selects offered methods, independent of offer order; AuthData::check is false for a missing credential when required and otherwise equals (listed user OR external command accepted); the v5 sub-negotiation reader returns exactly the length-prefixed user/pass bytes.",
+        level_note="Partial: cache expiry, the listener gate around check(), and TLS/QUIC client-certificate wiring are NOT covered (see assumptions). Trusted: auth_cmd shim, users_contains closure shim, Verus/Z3.",
+        verus_units=["auth", "socks"],
+        level="proof",
+        assumptions=A_COMMON + ["auth_cmd (external command + verdict cache) is a shim returning an arbitrary bool; cache expiry (tokio::spawn + sleep) not modelled",
+                                "TLS client-certificate policy (rustls) and QUIC listener crypto wiring not covered",
+                                "the call site listeners/socks.rs that must stop on check()==false is not under contract"],
+        trusted=["shims/auth_env.rs, shims/rw.rs"],
+    ),
+    "C13": dict(
+        level_text="Proof (Verus, unbounded) of the idle-threshold arithmetic: ContextStatistics::is_timeout is false for period 0 and otherwise equals (now - last_read > period) over unbounded integers with no trap for ANY clock reading (including a clock stepping backwards) and no truncation of the period; incr_sent_bytes/frames store a clock reading really taken (lemma_no_early_close, lemma_close_when_idle).",
+        level_note="Partial: the 1 s ticker/select loop in copy_bidi and the start-up wiring of timeouts.idle into the registry are not covered by this unit. Trusted: atomics/time shim (A5).",
+        verus_units=["timeouts"],
+        level="proof",
+        assumptions=A_COMMON + ["A5: SystemTime::now is an arbitrary reading; atomics are sequential cells (Relaxed ordering not analysed)",
+                                "ticker in copy_bidi (select!) and config->registry wiring not covered"],
+        trusted=["shims/std_misc.rs"],
+    ),
+    "C17": dict(
+        level_text="Proof (Verus, unbounded): round_robin returns connectors[ticket % n] with fetch_add handing out consecutive tickets; lemma rr_fair: every residue occurs exactly k times in any k*n consecutive tickets (no-wrap precondition); hash_by returns connectors[H(key) % n] with H a function of the key value (lemma sticky); random returns a member; verify() establishes non-empty membership of existing connectors, which discharges every unwrap and modulo in the selectors.",
+        level_note="Trusted: atomics (linearizable fetch_add), DefaultHasher functional model, rand::choose contract, registry shims for dyn Connector. The connect() dispatch and 'member recorded == member used' are outside the proved part; random's non-zero frequency is rand's.",
+        verus_units=["loadbalance"],
+        level="proof",
+        assumptions=A_COMMON + ["A5 atomics/hasher/rand contracts", "A10 call order init -> verify -> connect", "rr_fair requires c + k*n <= usize::MAX (no wrap)"],
+        trusted=["shims/std_misc.rs, lb_env.rs, registry_env.rs"],
+    ),
+    "C18": dict(
+        level_text="Proof (Verus, unbounded) of panic-freedom of the configuration dispatch for ANY serde_yaml::Value: connectors::from_value/from_config, listeners::from_value/from_config (requires true), and LoadBalanceConnector::verify/init (a balancer listing itself is rejected).",
+        level_note="Partial: serde/serde_yaml deserialisation, clap, rustls PEM loading, axum start-up and balancer cycles longer than one are not covered. Trusted: yaml/registry shims, per-kind from_value shims.",
+        verus_units=["config_dispatch", "loadbalance"],
+        level="proof",
+        assumptions=A_COMMON + ["per-kind from_value (serde) returns an arbitrary Result", "cycles through several load balancers are not detected by verify() (documented gap)"],
+        trusted=["shims/yaml.rs, registry_env.rs, config_env.rs"],
+    ),
     "C05": dict(
         _x=0,
         level_text="Proof of panic-freedom (no overflow trap, shift overflow, out-of-bounds index, unwrap on None/Err, division by zero, dependency precondition such as Bytes::split_to) for every peer-fed decoder function listed in evidence.functions_under_contract, for all inputs. The 'wedge/liveness' half of the property is not claimed.",
@@ -61,5 +104,5 @@ NOT_APPLICABLE = {
     "C16": "exactly-once accounting is an invariant over whole histories of concurrently created/dropped Arc<RwLock<Context>>, a Drop impl and a spawned collector loop; not a property of one call",
     "C19": "recovery within bounded attempts quantifies over fault sequences in time and quinn's connection state machine; no contract available here can decide it",
 }
-for _k in ["C02", "C06", "C07", "C08", "C13", "C15", "C17", "C18"]:
+for _k in ["C02", "C08", "C15"]:
     NOT_APPLICABLE.setdefault(_k, "not built yet (planned in DESIGN.md; unit under construction)")
